@@ -351,7 +351,7 @@ BOUNDS = {
              'device port and a MultiPort over two EchoPorts; a block-buffer device port (read, then mark consumed) under 5 programs; one device port written through a MultiPort and directly / through a second MultiPort at once (<=2 preemptions); message contents (note, velocity) symbolic; the sender mutates its '
              'message after send() returned; a forwarder thread that sends to a MultiPort from inside its iteration over a sub-port while another thread polls; ParserQueue with 2 concurrent put_bytes and a poller (here every line of parser.py and tokenizer.py is a yield point too)',
     'thorough': '<=2 preemptions for all programs on the device port, EchoPort and IOPort (MultiPort programs stay at 1: its '
-                'polling loop has several times more yield points); 3 senders; 2 messages per sender with 2 receivers',
+                'polling loop has several times more yield points); 3 senders and 2 messages per sender with 2 receivers (four threads: <=2 deviations from round-robin)',
 }
 OUTSIDE = 'preemption INSIDE a source line / between bytecodes; more than 3 preemptions; more than 4 threads; real OS scheduling; ' \
           'backends that run their own threads (rtmidi callbacks). On the schedule dimension the solver certifies each ' \
@@ -392,8 +392,8 @@ def JOBS(tier):
                              {'cost': 500, 'use_trace': False}))
     if not quick:
         for kind in ('wire', 'echo'):
-            jobs.append((concurrent, {'kind': kind, 'program': (3, 1, 1, 'receive'), 'max_preempt': 2},
-                         {'cost': 500, 'use_trace': False}))
+            jobs.append((concurrent, {'kind': kind, 'program': (3, 1, 1, 'receive'), 'max_preempt': 2,
+                                      'free_choices': False}, {'cost': 500, 'use_trace': False}))
             jobs.append((concurrent, {'kind': kind, 'program': (2, 2, 2, 'receive'), 'max_preempt': 2,
                                       'free_choices': False}, {'cost': 500, 'use_trace': False}))
     # the block-buffer device: _send and _receive must exclude each other
